@@ -528,7 +528,7 @@ def bash_quote(s):
     return "'" + s.replace("'", "'\\''") + "'"
 
 
-def run_batch(text, name, beh, lines, wordbreaks, timeout=300):
+def run_batch(text, name, beh, lines, wordbreaks, timeout=300, readline=None):
     """Compile the grammar with the real binary, source it into real bash, run all command lines.  Returns
     (compile result, per-line records [{invocations: [(k, argc, args...)], rc, reply: [...]}])."""
     d = tempfile.mkdtemp(prefix="vbash-", dir=proc.scratch_root())
@@ -552,6 +552,12 @@ def run_batch(text, name, beh, lines, wordbreaks, timeout=300):
                 f.write("%d\n" % b["rc"])
         sh = HARNESS_SH.replace("__CMDFN__", "_" + name)
         sh += "COMP_WORDBREAKS=%s\n" % bash_quote(wordbreaks)
+        if readline == "ignore-case-on":
+            # readline seam: the script asks `bind -v` for completion-ignore-case; a non-interactive bash always answers `off`, so the
+            # simulator owns `bind` and answers the way an interactive shell with `set completion-ignore-case on` would.  The
+            # generator's universe has no two items that differ only by case, so the expected results are the same as with `off`.
+            sh += ("bind() { printf 'set bell-style audible\\nset completion-ignore-case on\\nset completion-map-case off\\n'"
+                   "; printf 'set editing-mode emacs\\n'; }\n")
         sh += "source ./g.bash\n"
         for i, ln in enumerate(lines):
             ws = [name] + ln["words"] + [ln["prefix"]]
@@ -692,8 +698,10 @@ def run_grammar(args):
         beh = assign_behaviours(br.sub("beh"), len(case["probes"]), in_word)
         wordbreaks = br.choice([DEFAULT_WORDBREAKS, DEFAULT_WORDBREAKS, "", " \t\n"])
         lines = gen_lines(model, beh, br.sub("lines"), nlines)
-        comp, recs = run_batch(case["text"], case["name"], beh, lines, wordbreaks)
+        readline = br.sub("readline").choice([None, None, None, "ignore-case-on"])
+        comp, recs = run_batch(case["text"], case["name"], beh, lines, wordbreaks, readline=readline)
         out["bash_procs"] += 1
+        out["hits"]["readline:" + (readline or "non-interactive-default")] = out["hits"].get("readline:" + (readline or "non-interactive-default"), 0) + 1
         if recs is None:
             out["compile_fail"] = comp
             return out
@@ -715,7 +723,7 @@ def run_grammar(args):
                 seen.add(v)
                 out["violations"].append({"class": v, "key": key, "detail": detail, "grammar": case["text"], "name": case["name"],
                                           "tree": tree_to_json(case["root"]), "probes": case["probes"], "forbidden": case["forbidden"],
-                                          "behaviours": {str(k): bh for k, bh in beh.items()}, "wordbreaks": wordbreaks, "line": ln, "observed": rec,
+                                          "behaviours": {str(k): bh for k, bh in beh.items()}, "wordbreaks": wordbreaks, "readline": readline, "line": ln, "observed": rec,
                                           "behaviour_kinds_involved": kinds})
         if out["sample"] is None and lines:
             i = br.below(len(lines))
@@ -731,7 +739,7 @@ def reproduce(v):
     model = Model(root)
     case = {"probes": v["probes"], "forbidden": v["forbidden"]}
     beh = {int(k): b for k, b in v["behaviours"].items()}
-    comp, recs = run_batch(v["grammar"], v["name"], beh, [v["line"]], v["wordbreaks"])
+    comp, recs = run_batch(v["grammar"], v["name"], beh, [v["line"]], v["wordbreaks"], readline=v.get("readline"))
     if recs is None:
         return None, {"compile": comp}
     cls, detail, _ = check_line(model, case, beh, v["line"], recs[0], v["wordbreaks"])
